@@ -96,8 +96,16 @@ class SystemM(PyStub):
         return list(self.atoms.view.keys())
 
     def dvect(self, p0, p1):
+        # a table of separations, one row per atom (symbols: the distances are scripted where the table's norm is taken)
         self.dv_calls.append((p0, p1))
-        return ('DVECT', len(self.dv_calls))
+        return symarray('dv%d_' % len(self.dv_calls), (len(np.atleast_2d(np.asarray(p1, dtype=object))), 3), real=True)
+
+    def dmag(self, p0, p1):
+        # the same search through the distance function: the scripted distances directly
+        self.dv_calls.append((p0, p1))
+        if getattr(self, 'scripted', None) is None:
+            raise Opaque('dmag on a model system without scripted distances')
+        return self.scripted.copy()
 
 
 def base_system(with_old_id=False):
@@ -136,6 +144,7 @@ def run_gen(ctx, name, system, match, kw):
     def where(mask):
         return (np.array([i for i, b in enumerate(mask) if b], dtype=int),)
     ev.np_override = {'numpy.linalg.norm': norm_, 'numpy.isclose': isclose, 'numpy.where': where}
+    system.scripted = np.array([sp.Integer(0) if i in match else sp.Integer(10) for i in range(N)], dtype=object)
     ev.globals = {'System': lambda **k: SystemM(**k), 'deepcopy': deepcopy, 'uc': UC()}
     paths = ev.run_fn(fn, [system], dict(kw))
     return paths, copies, lookups
@@ -177,6 +186,9 @@ def site_tolerance(ctx):
                 def dvect(self, p0, p1):
                     self.dv_calls.append((p0, p1))
                     return np.atleast_2d(np.asarray(p1, dtype=object)) - np.asarray(p0, dtype=object)
+
+                def dmag(self, p0, p1):
+                    return np.array([sp.sqrt(sum(c_ ** 2 for c_ in row)) for row in self.dvect(p0, p1)], dtype=object)
             system = SysC(box=BoxM(), pbc=np.array([False, False, False], dtype=object), atoms=AtomsM(view), symbols=('Al', 'Cu'))
             pos = np.array([X[2] * U + delta, R(1, 2) * U, R(1, 3) * U], dtype=object)
             kw = dict(pos=pos)
@@ -219,6 +231,46 @@ def site_tolerance(ctx):
             ctx.ob('SITE', loc, 'position %s%s: %s' % (tag, '' if U == 1 else ' (lengths in angstrom; working length unit the nanometre)', what), bool(ok), 'the call is %s' % outcome, node=fn,
                    key='tolerance %s %s %s' % (gen, tag[:30], U))
     ctx.floor('SITE/tolerance', n, 32)
+    # a cell with a single atom (a primitive cell): System.dvect returns one vector of shape (3,) for one pair, not a (1, 3) table
+    for gen, tag, delta, want_n in (('substitutional', 'exactly on the atom', R(0), 1), ('dumbbell', '4e-3 from the atom', R(4, 1000), 2), ('interstitial', '1.5 from the atom', R(3, 2), 2), ('interstitial', '4e-3 from the atom', R(4, 1000), None)):
+        fn = ctx.fn(PT, gen)
+        view = {'atype': arr([1]), 'pos': np.array([[R(4), R(1, 2), R(1, 3)]], dtype=object), 'charge': arr([R(3)])}
+
+        class Sys1(SystemM):
+            def dvect(self, p0, p1):
+                self.dv_calls.append((p0, p1))
+                d_ = np.atleast_2d(np.asarray(p1, dtype=object)) - np.asarray(p0, dtype=object)
+                return d_[0] if d_.shape[0] == 1 else d_
+
+            def dmag(self, p0, p1):
+                d_ = np.atleast_2d(self.dvect(p0, p1))
+                m_ = np.array([sp.sqrt(sum(c_ ** 2 for c_ in row)) for row in d_], dtype=object)
+                return m_[0] if len(m_) == 1 else m_
+        system = Sys1(box=BoxM(), pbc=np.array([False, False, False], dtype=object), atoms=AtomsM(view), symbols=('Al', 'Cu'))
+        kw = dict(pos=np.array([R(4) + delta, R(1, 2), R(1, 3)], dtype=object))
+        if gen in ('interstitial', 'substitutional'):
+            kw.update(atype=2)
+        if gen == 'dumbbell':
+            kw.update(db_vect=arr([R(1, 10), 0, 0]))
+        ev = SymEval(module_aliases(ctx.mod(PT)))
+
+        class UC1(PyStub):
+            def set_in_units(self, v, u):
+                return sp.nsimplify(v)
+        ev.globals = {'System': lambda **k: Sys1(**k), 'deepcopy': _deep, 'uc': UC1()}
+        why = ''
+        try:
+            res, raised = _outcome(ev.run_fn(fn, [system], dict(kw)))
+            outcome = 'refused' if res is None else 'accepted'
+        except WouldRaise as e:
+            res, outcome, why = None, 'refused', str(e)
+        except Opaque as e:
+            raise AnalysisError('%s on a one-atom cell (%s): %s' % (gen, tag, e))
+        if want_n is None:
+            ok, what = outcome == 'refused' and 'AxisError' not in why and 'axis' not in why, 'the site is occupied: refused (with the documented ValueError)'
+        else:
+            ok, what = outcome == 'accepted' and res.natoms == want_n, 'accepted, the result has %d atom(s)' % want_n
+        ctx.ob('SITE', PT + '::' + gen, 'a cell with a single atom, position %s: %s' % (tag, what), bool(ok), 'the call is %s %s' % (outcome, why[:160]), node=fn, key='one atom %s %s' % (gen, tag[:20]))
 
 
 def generators(ctx):
